@@ -354,7 +354,7 @@ def gen_base(rng, *, steady: bool = False) -> dict:
     nrx = rng.randint(1, 4)
     for j in range(nrx):
         name = f"v{40 + j}"
-        kind = rng.choice(["in", "out", "uni", "uni", "bi", "split", "homo", "uni2", "weird"])
+        kind = rng.choice(["in", "out", "uni", "uni", "bi", "split", "homo", "uni2", "weird", "tri", "trisplit"])
         k = rng.choice(pnames + [d[0] for d in dpars])
         if kind == "in":
             x = rng.choice(cpds)
@@ -376,6 +376,12 @@ def gen_base(rng, *, steady: bool = False) -> dict:
             x, y, z = rng.sample(cpds, 3)
             st = {x: -1, y: 1, z: 1} if rng.random() < 0.5 else {y: 1, x: -1, z: 1}
             rxns.append((name, "FProd", [x, k], st))
+        elif kind == "tri" and ncpd >= 4:  # three substrates: exercises every split point of the label string
+            x, y, z, w = rng.sample(cpds, 4)
+            rxns.append((name, "FProd", [x, y, z, k], {x: -1, y: -1, z: -1, w: 1}))
+        elif kind == "trisplit" and ncpd >= 4:
+            x, y, z, w = rng.sample(cpds, 4)
+            rxns.append((name, "FProd", [x, k], {x: -1, y: 1, z: 1, w: 1}))
         elif kind == "homo":
             x, y = rng.sample(cpds, 2)
             rxns.append((name, "FProd", [x, x, k], {x: -2, y: 1}))
@@ -482,8 +488,9 @@ def canon_model(m) -> dict:
         return ("z", common.exact_int(v))
 
     return {
-        "params": [(k, common.to_fraction(v)) for k, v in m.get_parameter_values().items()],
-        "vars": [(k, common.to_fraction(v)) for k, v in m.get_initial_conditions().items()],
+        # raw accessors: no model cache is created (a generated model may name things that do not exist)
+        "params": [(k, common.to_fraction(v.value)) for k, v in m.get_raw_parameters(as_copy=False).items()],
+        "vars": [(k, common.to_fraction(v.initial_value)) for k, v in m.get_raw_variables(as_copy=False).items()],
         "derived": [(k, fnid_of(d.fn), list(d.args)) for k, d in m.get_raw_derived(as_copy=False).items()],
         "rxns": [
             (k, fnid_of(r.fn), list(r.args), [(c, coef(v)) for c, v in r.stoichiometry.items()])
